@@ -813,8 +813,17 @@ impl StrideRounding for Bitvector {
         let diff = interval.start.try_to_i128().unwrap() - self.try_to_i128().unwrap();
         let diff = diff % interval.stride as i128;
         let diff = (diff + interval.stride as i128) % interval.stride as i128;
-        let diff = Bitvector::from_u64(diff as u64).into_resize_unsigned(interval.bytesize());
-        self.signed_add_overflow_checked(&diff)
+        // `diff` is an unsigned value that may be larger than the maximal signed value of the bytesize,
+        // so the overflow check has to be done on the (non-truncated) integer values.
+        let rounded = self.try_to_i128().unwrap() + diff;
+        let max = Bitvector::signed_max_value(self.width())
+            .try_to_i128()
+            .unwrap();
+        if rounded > max {
+            None
+        } else {
+            Some(Bitvector::from_i64(rounded as i64).into_resize_signed(interval.bytesize()))
+        }
     }
 
     /// Round `self` down to the nearest value that adheres to the stride of `interval`.
@@ -826,8 +835,17 @@ impl StrideRounding for Bitvector {
         let diff = self.try_to_i128().unwrap() - interval.end.try_to_i128().unwrap();
         let diff = diff % interval.stride as i128;
         let diff = (diff + interval.stride as i128) % interval.stride as i128;
-        let diff = Bitvector::from_u64(diff as u64).into_resize_unsigned(interval.bytesize());
-        self.signed_sub_overflow_checked(&diff)
+        // `diff` is an unsigned value that may be larger than the maximal signed value of the bytesize,
+        // so the overflow check has to be done on the (non-truncated) integer values.
+        let rounded = self.try_to_i128().unwrap() - diff;
+        let min = Bitvector::signed_min_value(self.width())
+            .try_to_i128()
+            .unwrap();
+        if rounded < min {
+            None
+        } else {
+            Some(Bitvector::from_i64(rounded as i64).into_resize_signed(interval.bytesize()))
+        }
     }
 }
 
